@@ -200,6 +200,10 @@ type monHandler struct {
 	block chan struct{} // a stalled handler blocks here
 	mu    sync.Mutex
 	done  <-chan struct{}
+	// selfAt > 0: the handler closes its own monitor from inside its selfAt-th callback
+	selfAt int
+	ncb    int
+	mon    kcache.Monitor
 }
 
 func (h *monHandler) isDone() bool {
@@ -216,6 +220,18 @@ func (h *monHandler) cb(kind string, objs string) {
 	}
 	if h.block != nil {
 		<-h.block
+	}
+	h.ncb++
+	if h.selfAt > 0 && h.ncb == h.selfAt {
+		h.mu.Lock()
+		m := h.mon
+		h.mu.Unlock()
+		if m != nil {
+			// Close() called from the monitor's own goroutine: it must return, and the monitor must stop
+			h.s.tr.LogRaw("drv", "call.close", fmt.Sprintf(`"node":%d,"stage":%q,"how":"self"`, h.n.id, h.n.stage))
+			m.Close()
+			h.s.tr.LogRaw("drv", "ret.close", fmt.Sprintf(`"node":%d,"timeout":false`, h.n.id))
+		}
 	}
 	h.s.tr.LogRaw(h.n.stage, "cb", fmt.Sprintf(`"kind":%q,"ph":"exit","arg":%s,"mdone":%v`, kind, objs, h.isDone()))
 }
@@ -284,6 +300,9 @@ func (s *treeScn) addNode1(p *tnode, kind, mode, fname string) *tnode {
 		if mode == "stalled" {
 			h.block = make(chan struct{})
 		}
+		if mode == "selfclose" {
+			h.selfAt = 1 + s.rng.Intn(4)
+		}
 		// the stage name must be known before the first callback can fire
 		n.stage = fmt.Sprintf("monnode%d", n.id)
 		var m kcache.Monitor
@@ -293,6 +312,7 @@ func (s *treeScn) addNode1(p *tnode, kind, mode, fname string) *tnode {
 			n.handler = h
 			h.mu.Lock()
 			h.done = m.Done()
+			h.mon = m
 			h.mu.Unlock()
 			n.ready = p.ready
 			n.cache = p.cache
@@ -421,14 +441,25 @@ func runTreeScenario(w *ndWriter, seed int64, variant string, nEvents int, idx i
 		kinds = []string{"fsub", "dsub", "fclone", "dclone", "sub", "fsub"}
 		refilterProb = 25
 	}
+	// a wide tree: ten or more direct children of the root (a publisher treats many subscribers like few)
+	wide := (variant == "mixed" || variant == "close" || variant == "monitor") && rng.Intn(5) == 0
+	if wide {
+		maxNodes = 10 + rng.Intn(5)
+	}
 	newNode := func() {
 		ps := s.publishers()
 		if len(ps) == 0 || len(s.nodes) >= maxNodes+1 {
 			return
 		}
 		p := ps[rng.Intn(len(ps))]
+		if wide {
+			p = ps[0]
+		}
 		kind := kinds[rng.Intn(len(kinds))]
 		mode := modes[rng.Intn(len(modes))]
+		if kind == "mon" && variant != "overflow" && rng.Intn(4) == 0 {
+			mode = "selfclose"
+		}
 		s.addNode(p, kind, mode, treeFilters[rng.Intn(len(treeFilters))])
 	}
 	if variant == "overflow" {
@@ -448,6 +479,11 @@ func runTreeScenario(w *ndWriter, seed int64, variant string, nEvents int, idx i
 	// some nodes before the controller is ready
 	for i := 0; i < rng.Intn(4); i++ {
 		newNode()
+	}
+	if wide {
+		for len(s.nodes) < maxNodes-rng.Intn(3) && !s.wedged {
+			newNode()
+		}
 	}
 	if gated && (variant == "close" || variant == "monitor" || variant == "refilter") && rng.Intn(6) == 0 {
 		// the root is closed before its first list completes: nothing ever becomes ready, everything must still stop
